@@ -472,6 +472,7 @@ class ConditionalTypeBinder:
         """
         # We should erase last known value in binder, because if we are using it,
         # it means that the target is not final, and therefore can't hold a literal.
+        unerased_type = type
         type = remove_instance_last_known_values(type)
 
         if self.type_assignments is not None:
@@ -490,13 +491,20 @@ class ConditionalTypeBinder:
             # member initialization.
             return
         if not is_subtype(type, declared_type):
-            # Pretty sure this is only happens when there's a type error.
+            if is_subtype(unerased_type, declared_type):
+                # A valid assignment whose value matches the declared type only through a last
+                # known value nested in it, which was erased above (e.g. tuple[Literal[2]?, int]
+                # assigned to tuple[Literal[1, 2], int]). We can't narrow, but whatever was
+                # known about the variable before the assignment is stale now.
+                type = declared_type
+            else:
+                # Pretty sure this is only happens when there's a type error.
 
-            # Ideally this function wouldn't be called if the
-            # expression has a type error, though -- do other kinds of
-            # errors cause this function to get called at invalid
-            # times?
-            return
+                # Ideally this function wouldn't be called if the
+                # expression has a type error, though -- do other kinds of
+                # errors cause this function to get called at invalid
+                # times?
+                return
 
         p_declared = get_proper_type(declared_type)
         p_type = get_proper_type(type)
